@@ -471,6 +471,7 @@ type cliRun struct {
 	inQ        map[uint64]bool // operations whose Q call has not returned yet (not "handed over" yet)
 	faultBase  int64           // fault counters when the current round's fault was armed
 	dupOps     int             // operations in the request with a repeated id (q-dup)
+	dupIDs     map[uint64]bool // their ids
 	epoch      int             // bumped around Reset: a Status() snapshot taken across it describes no single session
 }
 
@@ -527,6 +528,9 @@ func (cr *cliRun) invariant(when string, final bool) {
 			continue
 		}
 		op := cr.handed[r.OperationID]
+		if cr.dupIDs[r.OperationID] {
+			continue // operations of the request with a repeated id: judged by the await-dup step only
+		}
 		if op == nil {
 			if !cr.srv.violated {
 				e.report("C13", "result-for-unknown-op", "a result for an operation that was never queued", fmt.Sprint(r), false)
@@ -691,6 +695,10 @@ func runCli(e *env) {
 			i := st.A % (len(ops) - 1)
 			ops[i+1].Id = ops[i].Id
 			cr.dupOps = len(ops)
+			cr.dupIDs = map[uint64]bool{}
+			for _, op := range ops {
+				cr.dupIDs[op.Id] = true
+			}
 			cr.pollStop = true // the per-id book-keeping of the poller does not describe this request
 			cr.timed("Q", func() { cr.c.Q(&spb.ModifyRequest{Operation: ops}) })
 		case "await-dup":
